@@ -563,6 +563,39 @@ func (g *PipeGen) join(s Schema, joinDepth int) (*Op, Schema) {
 			op.Conds = append(op.Conds, Name("true"))
 		}
 	}
+	// a second condition over the same column names as an earlier one: the
+	// same equality again, its sides reversed, or the two names crosswise
+	// ($left.a == $right.b, $left.b == $right.a) where both sides have both
+	if g.Rng.Intn(5) == 0 {
+		has := func(l []Ident, id Ident) bool {
+			for _, x := range l {
+				if x == id {
+					return true
+				}
+			}
+			return false
+		}
+		for _, c := range op.Conds {
+			if c.K != "bin" || c.Op != "==" || c.Kids[0].K != "name" || c.Kids[1].K != "name" || len(c.Kids[0].Parts) != 2 || len(c.Kids[1].Parts) != 2 {
+				continue
+			}
+			a, b := c.Kids[0], c.Kids[1]
+			if a.Parts[0].Name != "$left" {
+				a, b = b, a
+			}
+			switch g.Rng.Intn(3) {
+			case 0:
+				op.Conds = append(op.Conds, Bin("==", a, b))
+			case 1:
+				op.Conds = append(op.Conds, Bin("==", b, a))
+			default:
+				if has(lInts, b.Parts[1]) && has(rInts, a.Parts[1]) {
+					op.Conds = append(op.Conds, Bin("==", q("$left", b.Parts[1]), q("$right", a.Parts[1])))
+				}
+			}
+			break
+		}
+	}
 	for i, c := range op.Conds {
 		op.Conds[i] = Parenthesize(c, nil)
 	}
